@@ -371,9 +371,11 @@ class Stream(object):
         Returns:
             str: ``chunked``, ``length``, ``close``.
         '''
+        # Transfer coding names are case-insensitive (RFC 7230 section 4)
         chunked_match = re.match(
             r'chunked($|;)',
-            response.fields.get('Transfer-Encoding', '')
+            response.fields.get('Transfer-Encoding', ''),
+            re.IGNORECASE
         )
 
         if chunked_match:
